@@ -73,6 +73,7 @@ type GenesisOpts struct {
 	InitialTime int64             `json:"-"`
 	DiskDB      bool              `json:"diskdb"` // goleveldb under the run's scratch home instead of MemDB
 	NoFastNode  bool              `json:"nofast"` // the operator's --iavl-disable-fastnode
+	StopAfterBlock1 bool          `json:"-"`         // node-level runs: return right after the commit of block 1 (no block 2 begun, no restart done)
 	Gov         bool              `json:"gov"`       // short governance voting period, 1umed deposit, and a funded (untracked) proposer account
 	LegacyDid   bool              `json:"legacydid"` // genesis holds a registry entry under key dc whose document describes d1 (pre-binding chains)
 }
@@ -119,7 +120,7 @@ func appOptions(home string) simtestutil.AppOptionsMap {
 	return o
 }
 
-// newApp builds the application and loads the latest version itself (app.New with loadLatest=true calls os.Exit on a load error).
+// newApp builds the application the way the node does (app.New with loadLatest=true).
 var noFastNode bool // set per chain (one chain per process at a time in the commands that use it)
 
 func newApp(db dbm.DB, home string, logger log.Logger) *app.App {
@@ -130,15 +131,23 @@ func newApp(db dbm.DB, home string, logger log.Logger) *app.App {
 	return a
 }
 
-func newAppErr(db dbm.DB, home string, logger log.Logger) (*app.App, error) {
+func newAppErr(db dbm.DB, home string, logger log.Logger) (a *app.App, err error) {
 	opts := []func(*baseapp.BaseApp){baseapp.SetChainID(chainID)}
 	if os.Getenv("VERIF_IAVL_NOFAST") != "" || noFastNode {
 		opts = append(opts, baseapp.SetIAVLDisableFastNode(true))
 	}
-	a := app.New(logger, db, nil, false, appOptions(home), opts...)
-	if err := a.LoadLatestVersion(); err != nil {
-		return nil, fmt.Errorf("error on loading last version: %w", err)
-	}
+	// exactly what the node does at start-up: app.New with loadLatest = true.  A fatal start-up error (os.Exit in the node) reaches us as a
+	// panic through the verif hook app.verifOnFatal; a panic raised by the store loader itself is passed on unchanged.
+	defer func() {
+		if r := recover(); r != nil {
+			if e, ok := r.(error); ok && strings.HasPrefix(e.Error(), "verif: fatal error at application start-up") {
+				a, err = nil, fmt.Errorf("error on loading last version: %w", e)
+				return
+			}
+			panic(r)
+		}
+	}()
+	a = app.New(logger, db, nil, true, appOptions(home), opts...)
 	return a, nil
 }
 
@@ -217,6 +226,9 @@ func NewChain(opts GenesisOpts) (*Chain, error) {
 		return nil, err
 	}
 	c.Commit()
+	if opts.StopAfterBlock1 {
+		return c, nil
+	}
 	if err := c.BeginBlock(); err != nil { // block 2
 		return nil, err
 	}
